@@ -22,6 +22,7 @@ import (
 	"github.com/anishathalye/porcupine"
 
 	"github.com/Comcast/sheens/core"
+	"github.com/Comcast/sheens/crew"
 
 	"verif/sim"
 )
@@ -220,12 +221,39 @@ func runC16Faults(c *sim.Ctx, t *testing.T) {
 			opctx = cctx
 			c.Count("requests_with_cancelled_context")
 		}
+		viaProtocol, specName := false, "recorder"
+		if op.kind == "add" || op.kind == "rem" {
+			// half of the adds and removes come through the protocol layer (OpAdd.Do, OpRem.Do)
+			viaProtocol = c.Bool("viaprotocol")
+			if op.kind == "add" {
+				specName = []string{"recorder", "recorderp1", "recorderp2"}[c.Intn(3, "specname")]
+			}
+			if viaProtocol {
+				c.Count("ops_through_protocol_layer")
+			}
+		}
 		if c.Guard(cwOpString(op), func() {
 			switch op.kind {
 			case "add":
-				oerr = svc.AddMachine(opctx, "recorder", op.id, "start", nil)
+				if viaProtocol {
+					// as a client's request arrives: no state given, the spec's parameter
+					// defaults become the initial bindings
+					o := &OpAdd{Machine: &crew.Machine{Id: op.id, SpecSource: &crew.SpecSource{Name: specName}}}
+					if oerr = o.Do(opctx, svc); oerr == nil {
+						oerr = o.Error
+					}
+				} else {
+					oerr = svc.AddMachine(opctx, specName, op.id, "start", nil)
+				}
 			case "rem":
-				oerr = svc.RemMachine(opctx, op.id)
+				if viaProtocol {
+					o := &OpRem{Id: op.id}
+					if oerr = o.Do(opctx, svc); oerr == nil {
+						oerr = o.Error
+					}
+				} else {
+					oerr = svc.RemMachine(opctx, op.id)
+				}
 			case "process":
 				_, oerr = svc.Process(ctx, svJSONCopy(op.msg), ctl)
 			case "getcrew":
